@@ -341,4 +341,32 @@ def corpus_descs():
                  cc.param("tail", dict(k="value", dop=u8(), dflt=None), 3)], False,
                 [{"m": ["with_data", {"d": 0x5A}], "tail": 0xAA}, {"m": ["nothing", {}], "tail": 0xAA}, {"m": [3, None], "tail": 1},
                  {"m": [None, {}], "tail": 1}]))
+    # an END-OF-PDU-FIELD whose items occupy nothing (empty structure; a byte field of minimal length 0 which may be empty):
+    # decoding terminates -- with a decode error, since the field can never reach the end of the PDU
+    for it in (cc.struct([]), cc.struct([cc.param("b", dict(k="value", dop=cc.simple(cc.leading(cc.BBYTES, 8)), dflt=None))])):
+        out.append(([cc.param("sid", dict(k="coded", dct=cc.std(cc.BUINT, 8), v=0x22)),
+                     cc.param("f", dict(k="value", dop=dict(k="eop", s=it), dflt=None))], False,
+                    [{"f": []}], [bytes.fromhex(h) for h in ("22", "2200", "220000", "2201aa00", "22ff")]))
+    # a LENGTH-KEY with an explicit BYTE-POSITION inside a structure which does not start at byte 0 (the position is
+    # relative to the structure)
+    inner = cc.struct([cc.param("a", dict(k="value", dop=u8(), dflt=None)),
+                       cc.param("len", dict(k="lenkey", dop=cc.simple(cc.std(cc.BUINT, 8))), 1),
+                       cc.param("blob", dict(k="value", dop=cc.simple(cc.paramlen(cc.BBYTES, "len")), dflt=None))])
+    out.append(([cc.param("sid", dict(k="coded", dct=cc.std(cc.BUINT, 16), v=0x2233)),
+                 cc.param("s", dict(k="value", dop=inner, dflt=None))], False,
+                [{"s": {"a": 1, "blob": b"xy"}}, {"s": {"a": 0xFF, "blob": b""}}, {"s": {"a": 7, "blob": b"z", "len": 8}}]))
+    # LINEAR with a negative slope and only ONE internal limit (the physical limit it yields is the other one)
+    for lo, hi in ((3, None), (None, 40), (3, 40)):
+        dop = cc.simple(cc.std(cc.BUINT, 8), cc.linear(100, -2, 1, lo, hi))
+        out.append(([cc.param("sid", dict(k="coded", dct=cc.std(cc.BUINT, 8), v=0x2F)),
+                     cc.param("p1", dict(k="value", dop=dop, dflt=None))], False,
+                    [{"p1": 100 - 2 * x} for x in (0, 2, 3, 4, 39, 40, 41, 50, 127)]))
+    # a PARAM-LENGTH-INFO-TYPE object whose LENGTH-KEY the caller gives explicitly: 0 bits with an empty and with a
+    # non-empty value, too few and too many bits
+    out.append(([cc.param("sid", dict(k="coded", dct=cc.std(cc.BUINT, 8), v=0x23)),
+                 cc.param("len", dict(k="lenkey", dop=cc.simple(cc.std(cc.BUINT, 8)))),
+                 cc.param("blob", dict(k="value", dop=cc.simple(cc.paramlen(cc.BBYTES, "len")), dflt=None)),
+                 cc.param("tail", dict(k="value", dop=u8(), dflt=None))], False,
+                [{"len": 0, "blob": b"", "tail": 1}, {"len": 0, "blob": b"xyz", "tail": 1}, {"len": 8, "blob": b"xyz", "tail": 1},
+                 {"len": 24, "blob": b"xyz", "tail": 1}, {"len": 32, "blob": b"xyz", "tail": 1}, {"blob": b"xyz", "tail": 1}]))
     return out
